@@ -3,6 +3,7 @@ package main
 import (
 	"fmt"
 	"go/types"
+	"golang.org/x/tools/go/ssa"
 	"runtime/debug"
 	"strings"
 )
@@ -103,6 +104,29 @@ func (u *Unit) Run() {
 			ifs.items = append(ifs.items, u.evalLoc(ie, m.Expr, m.Src)...)
 		}
 		u.frames = append(u.frames, ifs)
+	}
+	if want := ct.Flags["defers-first"]; want != "" {
+		// structural obligation: the function body starts by deferring the named
+		// recover wrapper (nothing that can panic runs before it)
+		ok := false
+	scan:
+		for _, in := range fn.Blocks[0].Instrs {
+			switch x := in.(type) {
+			case *ssa.Defer:
+				if callee := x.Call.StaticCallee(); callee != nil && strings.HasSuffix(funcKey(callee), want) {
+					ok = true
+				}
+				break scan
+			case *ssa.Call:
+				if b, isB := x.Call.Value.(*ssa.Builtin); isB && strings.HasPrefix(b.Name(), "ssa:") {
+					continue
+				}
+				break scan
+			case *ssa.Go, *ssa.Send, *ssa.Panic:
+				break scan
+			}
+		}
+		u.addOblNamed(st, "structure", "structure/defers-first", "the body starts with `defer "+want+"`: a panic in it is recovered", fn.Pos(), BoolLit(ok))
 	}
 	exit, results := u.execBody(fr, st)
 	penv := u.envFor(nil, exit, u.entry, results)
